@@ -159,7 +159,31 @@ def crossings(laws, vols, v0):
 
 # --------------------------------------------------------------------------- input model (plain objects)
 
-def build_input(nv, nq, npm, kind, degree=0, wscale=1.0, vscale=1.0, acoustic="mixed", offset=0):
+WEIGHT_KINDS = ("unit", "increasing", "tiny", "integer", "zero-first", "zero-last", "zero-middle", "zero-first-last",
+                "all-zero", "empty")
+
+
+def weights_for(kind, nq):
+    """q-point weights.  The interpolation is a statement about every (q,m) position; weights only enter
+    Brillouin-zone averages later on, so the triple must not depend on them.  None = an EMPTY weights list."""
+    inc = [1.0 + q for q in range(nq)]
+    if kind == "unit":
+        return [1.0] * nq
+    if kind == "increasing":
+        return inc
+    if kind == "tiny":
+        return [1e-9 * w for w in inc]
+    if kind == "integer":
+        return [1 + q for q in range(nq)]
+    if kind == "all-zero":
+        return [0.0] * nq
+    if kind == "empty":
+        return None
+    zero = {"zero-first": {0}, "zero-last": {nq - 1}, "zero-middle": {nq // 2}, "zero-first-last": {0, nq - 1}}[kind]
+    return [0.0 if q in zero else w for q, w in enumerate(inc)]
+
+
+def build_input(nv, nq, npm, kind, degree=0, wscale=1.0, vscale=1.0, acoustic="mixed", offset=0, weights="unit"):
     """Plain objects with the attribute names the implementation reads:
     nv, nq, np, (nm, na, weights,) volumes[i].volume, volumes[i].q_points[j].modes[k]
     (plus pressure/energy/coord so that the real NamedTuples can be filled from it)."""
@@ -179,7 +203,8 @@ def build_input(nv, nq, npm, kind, degree=0, wscale=1.0, vscale=1.0, acoustic="m
                     modes.append(omega_at(laws[q][m], v, v0))
             qps.append(SimpleNamespace(coord=(0.0 if q == 0 else 0.5 / q, 0.0, 0.25 * q), modes=modes))
         vdata.append(SimpleNamespace(pressure=10.0 * i, volume=v, energy=-100.0 + 0.01 * i * i, q_points=qps))
-    weights = [((0.0 if q == 0 else 0.5 / q, 0.0, 0.25 * q), 1.0 + q) for q in range(nq)]
+    wts = weights_for(weights, nq)
+    weights = [] if wts is None else [((0.0 if q == 0 else 0.5 / q, 0.0, 0.25 * q), wts[q]) for q in range(nq)]
     inp = SimpleNamespace(nv=nv, nq=nq, np=npm, nm=max(npm // 3, 1), na=max(npm // 3, 1),
                           weights=weights, volumes=vdata)
     return inp, laws, vols, v0
@@ -317,6 +342,21 @@ def selftest() -> bool:
                 ok = False
     if crossings(laws_for("power", 0, 2, 3), vols, v0) < 1:
         ok = False
+    # 4c. weight spellings: right lengths, zeros exactly where announced
+    for nq in (1, 2, 3):
+        for wk in WEIGHT_KINDS:
+            w = weights_for(wk, nq)
+            if wk == "empty":
+                ok = ok and w is None
+                continue
+            ok = ok and len(w) == nq
+            if wk.startswith("zero-") or wk == "all-zero":
+                ok = ok and any(x == 0 for x in w)
+            else:
+                ok = ok and all(x > 0 for x in w)
+        ok = ok and weights_for("zero-first", nq)[0] == 0 and weights_for("zero-last", nq)[-1] == 0
+        ok = ok and all(isinstance(x, int) for x in weights_for("integer", nq))
+    ok = ok and len(build_input(6, 2, 6, "power", weights="empty")[0].weights) == 0
     # 5. grids
     for nv in (6, 8, 12):
         vs = volumes(nv)
